@@ -1,4 +1,5 @@
 import dis
+import re
 import yaml
 from typing import (
     Any,
@@ -7,6 +8,7 @@ from typing import (
     Dict,
     List,
     Iterator,
+    Iterable,
     Optional,
     Generator,
     Mapping,
@@ -40,6 +42,14 @@ from numba_scfg.core.datastructures.block_names import (
 )
 
 
+# The shape of the names handed out by the NameGenerator.
+_GENERATED_NAME = re.compile(
+    r"(?P<kind>.+)_(?:block|region)_(?P<idx>\d+)"
+    r"|__scfg_(?P<var_kind>.+)_var_(?P<var_idx>\d+)__",
+    re.DOTALL,
+)
+
+
 @dataclass(frozen=True)
 class NameGenerator:
     """Unique Name Generator.
@@ -55,6 +65,31 @@ class NameGenerator:
     """
 
     kinds: dict[str, int] = field(default_factory=dict)
+
+    def reserve(self, names: Iterable[str]) -> None:
+        """Make sure that none of the given names is handed out (again).
+
+        Names that were not or could not have been generated are ignored,
+        for all others the index of the respective kind is advanced.
+
+        Parameters
+        ----------
+        names: Iterable[str]
+            The names that are already in use.
+        """
+        for name in names:
+            match = (
+                _GENERATED_NAME.fullmatch(name)
+                if isinstance(name, str)
+                else None
+            )
+            if match is None:
+                continue
+            if match.group("kind") is not None:
+                kind, idx = match.group("kind"), int(match.group("idx"))
+            else:
+                kind, idx = match.group("var_kind"), int(match.group("var_idx"))
+            self.kinds[kind] = max(self.kinds.get(kind, 0), idx + 1)
 
     def new_block_name(self, kind: str) -> str:
         """Generate a new unique name for a block of the specified kind.
@@ -175,6 +210,16 @@ class SCFG(Sized):
     region: RegionBlock = field(init=False, compare=False)
 
     def __post_init__(self) -> None:
+        # The graph may already hold names of the kind the name generator
+        # hands out, for example when it was read back from a dictionary.
+        # Those must never be generated again.
+        in_use = list(self.graph.keys())
+        for block in self.graph.values():
+            if isinstance(block, SyntheticBranch):
+                in_use.append(block.variable)
+            elif isinstance(block, SyntheticAssignment):
+                in_use.extend(block.variable_assignment.keys())
+        self.name_gen.reserve(in_use)
         name = self.name_gen.new_region_name("meta")
         new_region = RegionBlock(
             name=name,
